@@ -68,13 +68,17 @@ def judge_a(case: Dict[str, Any], ap: Dict[str, Any], af: Dict[str, Any]) -> Dic
                           f"{'both backends' if both else 'Pydantic'}; dump = {json.dumps(got, ensure_ascii=True)[:300]}"))
     deferred = []
     if F is None:
-        deferred.append(("rejected-by-fallback", f"{model} <- {wire_txt}"))
+        deferred.append(("rejected-by-fallback", f"{model} <- {wire_txt}"))        # acceptance is C09's subject
     else:
+        gotf = dec(af["dump"])
         for p in F:
-            if key(p) not in pkeys:
-                deferred.append((f"fallback-only:{p['kind']}:{model}:{c09.norm_path(p['path'])}",
-                                 f"{model} <- {wire_txt}: {p['kind']} at '{p['path']}' ({p.get('detail')}) under the fallback only"))
-    status = "lossless" if not viol and not deferred else ("lossy" if viol else "lossless-under-pydantic-only")
+            if key(p) in pkeys:
+                continue
+            sig = {"class": p["kind"], "model": p.get("model") or model, "member": p.get("member", c09.norm_path(p["path"])),
+                   "backend": "fallback"}
+            viol.append((sig, f"{model} <- {wire_txt}: {p['kind']} at '{p['path']}' ({p.get('detail')}) under the fallback "
+                              f"only; dump = {json.dumps(gotf, ensure_ascii=True)[:300]}"))
+    status = "lossless" if not viol and not deferred else ("lossy" if viol else "lossless-but-rejected-by-fallback")
     return {"status": status, "violations": viol, "deferred": deferred}
 
 
@@ -386,7 +390,7 @@ def run(tier: str, only=None) -> core.Result:
         "spec-valid = generated by the type-directed generator and accepted by the Pydantic backend",
         "a member whose wire value is null is outside part A: the observed view is model_dump(exclude_none=True)",
         "numbers are compared by value (1 and 1.0 are the same JSON number); everything else exactly",
-        "a loss that occurs under the fallback backend only is a backend disagreement and is reported by C09, which puts the same objects to both backends; it is counted here under fallback_only_losses_deferred_to_C09",
+        "an object the fallback backend rejects although Pydantic accepts it is a backend disagreement (C09) and only counted here (fallback_only_losses_deferred_to_C09 / rejected-by-fallback); losses under either backend are reported here",
         "transport parameter classes (chuk_mcp.transports.*) are local configuration, not protocol models: driven, differences listed under unjudged_config_class_differences",
         "part B judges names only: the produced JSON must not contain, at any depth, the Python attribute name of any aliased member (no generated input uses those words as data keys) and must contain the wire name of every aliased member the input populated",
         "the sites in send_message.py dump an *incoming* response for a log line / the caller; they are driven like the others",
